@@ -843,5 +843,61 @@ Proof.
   exact (clone_generic None d d a a nu nr rs a' nu' nr' roots eq_refl HR HR Hu Hu Hr Hr Hp Hp Hn Hn H).
 Qed.
 
+(* ---- the statements of Rep.v as they stand, under the extra hypotheses that make them true ---- *)
+
+Definition props_fixed (a : adom) : Prop :=
+  forall x i, In (x, i) (aflat a) -> props_of_list (i_props i) = i_props i.
+
+Lemma props_fixed_nodup a : props_fixed a -> props_nodup a.
+Proof. intros H x i Hin. rewrite <- (H x i Hin). apply NoDup_keys_pol. Qed.
+
+Lemma tmap_ext_entries f1 f2 t :
+  (forall x i, In (x, i) (tflat rnone t) -> f1 x (i_props i) = f2 x (i_props i)) -> tmap f1 t = tmap f2 t.
+Proof.
+  induction t as [r n c ps kids IH] using tree_ind'. intros H. rewrite !tmap_eq.
+  assert (E : f1 r ps = f2 r ps).
+  { apply (H r (mkInst rnone (List.map troot kids) n c ps)). rewrite tflat_eq. left. reflexivity. }
+  rewrite E. destruct (f2 r ps) as [x' ps']. f_equal.
+  apply map_ext_in. intros k Hk. rewrite Forall_forall in IH. apply IH; [exact Hk|].
+  intros x i Hin. destruct (tflat_reparent rnone r k x i Hin) as [i' [Hin' [_ [_ [_ Hp]]]]]. rewrite Hp.
+  apply H. rewrite tflat_eq. right. apply in_flat_map. exists k. split; assumption.
+Qed.
+
+Lemma a_clone_p_eq sa ta nu nr rs : props_fixed sa -> a_clone_p sa ta nu nr rs = a_clone sa ta nu nr rs.
+Proof. intros _. reflexivity. Qed.  (* Tree.v's a_clone now is a_clone_p: definitional *)
+
+Lemma clone_ext_refines_fixed : forall s t sa ta nu nr rs ta' nu' nr' roots,
+  Rep s sa -> Rep t ta -> uids_below nu ta -> refs_below nr sa -> refs_below nr ta ->
+  prefs_below nr sa -> prefs_below nr ta ->
+  uids_below nu sa -> props_fixed sa -> props_nodup ta ->          (* the extra hypotheses *)
+  a_clone sa ta nu nr rs = Some (ta', nu', nr', roots) ->
+  exists t', dom_clone (Some s) t nu nr rs = Ok (t', nu', nr', roots) /\ Rep t' ta' /\
+             uids_below nu' ta' /\ refs_below nr' ta' /\ prefs_below nr' ta' /\ nu <= nu' /\ nr <= nr'.
+Proof.
+  intros s t sa ta nu nr rs ta' nu' nr' roots HRs HRt Hut Hrs Hrt Hps Hpt Hus Hfix Hnt H.
+  rewrite <- (a_clone_p_eq sa ta nu nr rs Hfix) in H.
+  destruct (clone_ext_refines' s t sa ta nu nr rs ta' nu' nr' roots HRs HRt Hus Hut Hrs Hrt Hps Hpt
+              (props_fixed_nodup sa Hfix) Hnt H) as [t' [H1 [H2 [H3 [H4 [H5 [_ [H6 H7]]]]]]]].
+  exists t'. split; [exact H1|]. split; [exact H2|]. split; [exact H3|]. split; [exact H4|].
+  split; [exact H5|]. split; [exact H6|exact H7].
+Qed.
+
+Lemma clone_within_refines_fixed : forall d a nu nr rs a' nu' nr' roots,
+  Rep d a -> uids_below nu a -> refs_below nr a -> prefs_below nr a ->
+  props_fixed a ->                                                  (* the extra hypothesis *)
+  a_clone a a nu nr rs = Some (a', nu', nr', roots) ->
+  exists d', dom_clone None d nu nr rs = Ok (d', nu', nr', roots) /\ Rep d' a' /\
+             uids_below nu' a' /\ refs_below nr' a' /\ prefs_below nr' a' /\ nu <= nu' /\ nr <= nr'.
+Proof.
+  intros d a nu nr rs a' nu' nr' roots HR Hu Hr Hp Hfix H.
+  rewrite <- (a_clone_p_eq a a nu nr rs Hfix) in H.
+  destruct (clone_within_refines' d a nu nr rs a' nu' nr' roots HR Hu Hr Hp (props_fixed_nodup a Hfix) H)
+    as [d' [H1 [H2 [H3 [H4 [H5 [_ [H6 H7]]]]]]]].
+  exists d'. split; [exact H1|]. split; [exact H2|]. split; [exact H3|]. split; [exact H4|].
+  split; [exact H5|]. split; [exact H6|exact H7].
+Qed.
+
 Print Assumptions clone_ext_refines'.
 Print Assumptions clone_within_refines'.
+Print Assumptions clone_ext_refines_fixed.
+Print Assumptions clone_within_refines_fixed.
